@@ -247,3 +247,63 @@ func init() {
 	register(&Scenario{Prop: "C02", Name: "c02/calls-and-stream-across-connection-loss", Quick: []Bound{{1, 0}}, Thorough: []Bound{{2, 0}}, Body: c03BodyP("C02", sysModes[:1], 5), OnlyKeys: []string{"C02/caller-hangs", "C02/late-call-hangs", "panic/", "hang/", "livelock/"}, BudgetQ: 25})
 	register(&Scenario{Prop: "C10", Name: "c10/stream-across-connection-loss", Quick: []Bound{{1, 0}}, Thorough: []Bound{{2, 0}}, Body: c03BodyP("C10", sysModes[:1], 5), OnlyKeys: []string{"C10/stream-reader-hangs", "C10/newstream-hangs", "C10/late-call-hangs", "panic/", "hang/", "livelock/"}, BudgetQ: 25})
 }
+
+// a peer that has stopped reading: request writes pile up and block (back-pressure).  Conn.Close
+// still returns, every outstanding call - written, being written, waiting to be written - fails,
+// and a call started afterwards fails at once with ErrShutdown.  Also with client pipelining and
+// when the connection is ended by the peer's socket dying instead of a local Close.
+func c03BlockedWrites(x *X) {
+	pipelined := x.Choose(2) == 1
+	end := x.Choose(2) // local Close / the link dies
+	ncall := 2 + x.Choose(2)
+	w := newWorld()
+	_ = w
+	cl, _ := NewPipe() // nobody ever reads the other end
+	cl.p.capacity = 1
+	conn := newConn(cl, "", 64, nil)
+	if pipelined {
+		conn.SetPipelining(true)
+	}
+	var calls []*ucall
+	for i := 0; i < ncall; i++ {
+		c := newUcall(byte(i+1), 0, 20+i, []int{formCall, formGo, formCallCtx}[i%3])
+		calls = append(calls, c)
+		c.spawn(conn)
+	}
+	vs.Quiesce()
+	closed := false
+	var cerr error
+	if end == 0 {
+		vs.GoNamed("closer", func() { cerr = conn.Close(); closed = true })
+	} else {
+		cl.Kill()
+	}
+	vs.Quiesce()
+	if end == 0 && !closed {
+		x.Fail("C03/close-hangs/blocked-writes", "Conn.Close does not return while request writes are blocked by a peer that has stopped reading (%d calls outstanding, client pipelining %v)", ncall, pipelined)
+	} else if end == 0 && cerr != nil {
+		x.Fail("C03/close-result/blocked-writes", "Conn.Close returned %v", cerr)
+	}
+	for _, c := range calls {
+		if !c.ret {
+			x.Fail("C03/caller-hangs/blocked-writes", "call %d (%s) never returned after the connection ended (%s) while request writes were blocked", c.tag, formNames[c.form], []string{"local Close", "link died"}[end])
+		} else if c.err == nil {
+			x.Fail("C03/call-succeeded-without-peer/blocked-writes", "call %d returned nil although nobody ever read its request", c.tag)
+		}
+	}
+	late := newUcall(9, 0, 20, formCall)
+	late.spawn(conn)
+	vs.Quiesce()
+	if !late.ret {
+		x.Fail("C03/late-call-hangs/blocked-writes", "a call started after the connection ended blocks")
+	} else if late.err != rpc.ErrShutdown {
+		x.Fail("C03/late-call-error/blocked-writes", "a call started after the connection ended returned %v, want ErrShutdown", late.err)
+	}
+	x.Outcome("pipelined=%v end=%d n=%d closed=%v", pipelined, end, ncall, closed)
+	conn.Close()
+	vs.Quiesce()
+}
+
+func init() {
+	register(&Scenario{Prop: "C03", Name: "c03/blocked-writes", Quick: []Bound{{0, 0}, {1, 0}}, Thorough: []Bound{{2, 0}}, Body: c03BlockedWrites, BudgetQ: 15})
+}
